@@ -83,143 +83,192 @@ Proof. induction 1; [auto|]. intro H0. apply (proj1 (proj2 (p_mono_step m))). au
 Lemma p_not_mono f f' ts r : f <= f' -> p_not f ts = Some r -> p_not f' ts = Some r.
 Proof. induction 1; [auto|]. intro H0. apply (proj2 (proj2 (p_mono_step m))). auto. Qed.
 
-(* ---- what has to be shown for each printed condition ---- *)
+(* ---- what has to be shown for a token list [ts] that is to mean [s] ---- *)
 Definition hd_not (bad : ctok -> bool) (l : list ctok) : Prop :=
   match l with [] => True | t :: _ => bad t = false end.
 Definition is_tand (t : ctok) : bool := match t with TAnd => true | _ => false end.
 Definition is_tandor (t : ctok) : bool := match t with TAnd | TOr => true | _ => false end.
 
-Definition lvl (c : scond) : nat :=
-  match c with SOr _ _ _ => 0 | SAnd _ _ _ => 1 | _ => 2 end.
-
-Definition claimN (c : scond) : Prop :=
-  forall rest, exists c' f, p_not f (print_cond c ++ rest) = Some (c', rest) /\ eqc c' (sem c).
-Definition claimA1 (c : scond) : Prop :=
-  forall rest, hd_not is_tand rest ->
-    exists c' f, p_and f (print_cond c ++ rest) = Some (c', rest) /\ eqc c' (sem c).
-Definition claimA2 (c : scond) : Prop :=
+Definition claimN (ts : list ctok) (s : cond) : Prop :=
+  forall rest, exists c' f, p_not f (ts ++ rest) = Some (c', rest) /\ eqc c' s.
+Definition claimA1 (ts : list ctok) (s : cond) : Prop :=
+  forall rest, hd_not is_tand rest -> exists c' f, p_and f (ts ++ rest) = Some (c', rest) /\ eqc c' s.
+Definition claimA2 (ts : list ctok) (s : cond) : Prop :=
   forall rest d rest' f2, p_and f2 rest = Some (d, rest') ->
-    exists c' f, p_and f (print_cond c ++ TAnd :: rest) = Some (c', rest') /\ eqc c' (CAnd (sem c) d).
-Definition claimO1 (c : scond) : Prop :=
-  forall rest, hd_not is_tandor rest ->
-    exists c' f, p_or f (print_cond c ++ rest) = Some (c', rest) /\ eqc c' (sem c).
-Definition claimO2 (c : scond) : Prop :=
+    exists c' f, p_and f (ts ++ TAnd :: rest) = Some (c', rest') /\ eqc c' (CAnd s d).
+Definition claimO1 (ts : list ctok) (s : cond) : Prop :=
+  forall rest, hd_not is_tandor rest -> exists c' f, p_or f (ts ++ rest) = Some (c', rest) /\ eqc c' s.
+Definition claimO2 (ts : list ctok) (s : cond) : Prop :=
   forall rest d rest' f2, p_or f2 rest = Some (d, rest') ->
-    exists c' f, p_or f (print_cond c ++ TOr :: rest) = Some (c', rest') /\ eqc c' (COr (sem c) d).
+    exists c' f, p_or f (ts ++ TOr :: rest) = Some (c', rest') /\ eqc c' (COr s d).
 
-Definition claims (c : scond) : Prop :=
-  (lvl c = 2 -> claimN c) /\ (1 <= lvl c -> claimA1 c /\ claimA2 c) /\ claimO1 c /\ claimO2 c.
-
-(* from the not-level claim to the and-level claims *)
-Lemma lift_N_A c : claimN c -> claimA1 c /\ claimA2 c.
+Lemma lift_N_A ts s : claimN ts s -> claimA1 ts s /\ claimA2 ts s.
 Proof.
   intro HN. split.
   - intros rest Hh. destruct (HN rest) as [c' [f [Hp He]]].
     exists c', (S f). split; [|exact He]. rewrite p_and_S, Hp.
     destruct rest as [|[] rest0]; try reflexivity. cbn in Hh. discriminate.
-  - intros rest d rest' f2 H2. destruct (HN (TAnd :: rest)) as [c' [f [Hp He]]].
+  - intros rest d rest' f2 Hd. destruct (HN (TAnd :: rest)) as [c' [f [Hp He]]].
     exists (CAnd c' d), (S (Nat.max f f2)). split.
-    + rewrite p_and_S, (p_not_mono f _ _ _ (Nat.le_max_l f f2) Hp), (p_and_mono f2 _ _ _ (Nat.le_max_r f f2) H2).
+    + rewrite p_and_S, (p_not_mono f _ _ _ (Nat.le_max_l f f2) Hp), (p_and_mono f2 _ _ _ (Nat.le_max_r f f2) Hd).
       reflexivity.
     + apply eqc_and; [exact He | apply eqc_refl].
 Qed.
 
-(* from the and-level claims to the or-level claims *)
-Lemma lift_A_O c : claimA1 c -> claimO1 c /\ claimO2 c.
+Lemma lift_A_O ts s : claimA1 ts s -> claimO1 ts s /\ claimO2 ts s.
 Proof.
   intro HA. split.
   - intros rest Hh. destruct (HA rest) as [c' [f [Hp He]]].
     { destruct rest as [|[] ?]; cbn in *; try reflexivity; try exact I; discriminate. }
     exists c', (S f). split; [|exact He]. rewrite p_or_S, Hp.
     destruct rest as [|[] rest0]; try reflexivity. cbn in Hh. discriminate.
-  - intros rest d rest' f2 H2. destruct (HA (TOr :: rest)) as [c' [f [Hp He]]]; [reflexivity|].
+  - intros rest d rest' f2 Hd. destruct (HA (TOr :: rest)) as [c' [f [Hp He]]]; [reflexivity|].
     exists (COr c' d), (S (Nat.max f f2)). split.
-    + rewrite p_or_S, (p_and_mono f _ _ _ (Nat.le_max_l f f2) Hp), (p_or_mono f2 _ _ _ (Nat.le_max_r f f2) H2).
+    + rewrite p_or_S, (p_and_mono f _ _ _ (Nat.le_max_l f f2) Hp), (p_or_mono f2 _ _ _ (Nat.le_max_r f f2) Hd).
       reflexivity.
     + apply eqc_or; [exact He | apply eqc_refl].
 Qed.
 
-Lemma app_assoc3 (a : list ctok) t b rest : (a ++ t :: b) ++ rest = a ++ t :: (b ++ rest).
-Proof. rewrite <- app_assoc. reflexivity. Qed.
+(* a parenthesised or-level text is a not-level text *)
+Lemma paren_N ts s : claimO1 ts s -> claimN (TLp :: ts ++ [TRp]) s.
+Proof.
+  intros HO rest. destruct (HO (TRp :: rest)) as [c' [f [Hp He]]]; [reflexivity|].
+  exists c', (S f). split; [|exact He].
+  change ((TLp :: ts ++ [TRp]) ++ rest) with (TLp :: ((ts ++ [TRp]) ++ rest)).
+  rewrite <- app_assoc. cbn [app]. rewrite p_not_S, Hp. reflexivity.
+Qed.
+
+(* what is known about a printed condition: it can stand as an operand of .OR.; unless it is an Or,
+   also as an operand of .AND. *)
+Definition wrap (c : scond) : list ctok := if is_or c then TLp :: print_cond c ++ [TRp] else print_cond c.
+Definition claims (c : scond) : Prop :=
+  claimO1 (print_cond c) (sem c) /\ claimO2 (print_cond c) (sem c) /\
+  claimA1 (wrap c) (sem c) /\ claimA2 (wrap c) (sem c).
+Fixpoint claims_l (l : sclist) : Prop :=
+  match l with SNil => True | SCons c tl => claims c /\ claims_l tl end.
+
+(* right-nested reading of an operand sequence, and its equivalence with sympy's left fold *)
+Fixpoint rc_and (x : cond) (l : sclist) : cond :=
+  match l with SNil => x | SCons c tl => CAnd x (rc_and (sem c) tl) end.
+Fixpoint rc_or (x : cond) (l : sclist) : cond :=
+  match l with SNil => x | SCons c tl => COr x (rc_or (sem c) tl) end.
+
+Lemma rc_and_shift l : forall x y, eqc (rc_and (CAnd x y) l) (CAnd x (rc_and y l)).
+Proof.
+  destruct l as [|c tl]; intros x y; cbn [rc_and]; [apply eqc_refl|]. apply eqc_sym, eqc_and_assoc.
+Qed.
+Lemma sem_and_rc l : forall x, eqc (sem_and x l) (rc_and x l).
+Proof.
+  induction l as [|c tl IH]; intro x; cbn [sem_and rc_and]; [apply eqc_refl|].
+  eapply eqc_trans; [apply IH | apply rc_and_shift].
+Qed.
+Lemma rc_or_shift l : forall x y, eqc (rc_or (COr x y) l) (COr x (rc_or y l)).
+Proof.
+  destruct l as [|c tl]; intros x y; cbn [rc_or]; [apply eqc_refl|]. apply eqc_sym, eqc_or_assoc.
+Qed.
+Lemma sem_or_rc l : forall x, eqc (sem_or x l) (rc_or x l).
+Proof.
+  induction l as [|c tl IH]; intro x; cbn [sem_or rc_or]; [apply eqc_refl|].
+  eapply eqc_trans; [apply IH | apply rc_or_shift].
+Qed.
+
+(* operand sequences *)
+Lemma and_seq l : claims_l l -> forall ts s, claimA1 ts s -> claimA2 ts s ->
+  claimA1 (ts ++ print_and_more l) (rc_and s l) /\ claimA2 (ts ++ print_and_more l) (rc_and s l).
+Proof.
+  induction l as [|c tl IH]; intros Hl ts s H1 H2; cbn [print_and_more rc_and].
+  - rewrite app_nil_r. split; assumption.
+  - destruct Hl as [[_ [_ [W1 W2]]] Htl]. destruct (IH Htl _ _ W1 W2) as [T1 T2]. fold (wrap c). split.
+    + intros rest Hh. rewrite <- app_assoc. cbn [app]. rewrite <- app_assoc.
+      destruct (T1 rest Hh) as [d [fd [Hpd Hed]]]. rewrite <- app_assoc in Hpd.
+      destruct (H2 _ _ _ _ Hpd) as [c' [f [Hp He]]].
+      exists c', f. split; [exact Hp|]. eapply eqc_trans; [exact He|]. apply eqc_and; [apply eqc_refl | exact Hed].
+    + intros rest d0 rest' f2 Hd. rewrite <- app_assoc. cbn [app]. rewrite <- app_assoc.
+      destruct (T2 _ _ _ _ Hd) as [d [fd [Hpd Hed]]]. rewrite <- app_assoc in Hpd. cbn [app] in Hpd.
+      destruct (H2 _ _ _ _ Hpd) as [c' [f [Hp He]]].
+      exists c', f. split; [exact Hp|]. eapply eqc_trans; [exact He|].
+      eapply eqc_trans; [apply eqc_and; [apply eqc_refl | exact Hed]|]. apply eqc_and_assoc.
+Qed.
+
+Lemma or_seq l : claims_l l -> forall ts s, claimO1 ts s -> claimO2 ts s ->
+  claimO1 (ts ++ print_or_more l) (rc_or s l) /\ claimO2 (ts ++ print_or_more l) (rc_or s l).
+Proof.
+  induction l as [|c tl IH]; intros Hl ts s H1 H2; cbn [print_or_more rc_or].
+  - rewrite app_nil_r. split; assumption.
+  - destruct Hl as [[W1 [W2 _]] Htl]. destruct (IH Htl _ _ W1 W2) as [T1 T2]. split.
+    + intros rest Hh. rewrite <- app_assoc. cbn [app]. rewrite <- app_assoc.
+      destruct (T1 rest Hh) as [d [fd [Hpd Hed]]]. rewrite <- app_assoc in Hpd.
+      destruct (H2 _ _ _ _ Hpd) as [c' [f [Hp He]]].
+      exists c', f. split; [exact Hp|]. eapply eqc_trans; [exact He|]. apply eqc_or; [apply eqc_refl | exact Hed].
+    + intros rest d0 rest' f2 Hd. rewrite <- app_assoc. cbn [app]. rewrite <- app_assoc.
+      destruct (T2 _ _ _ _ Hd) as [d [fd [Hpd Hed]]]. rewrite <- app_assoc in Hpd. cbn [app] in Hpd.
+      destruct (H2 _ _ _ _ Hpd) as [c' [f [Hp He]]].
+      exists c', f. split; [exact Hp|]. eapply eqc_trans; [exact He|].
+      eapply eqc_trans; [apply eqc_or; [apply eqc_refl | exact Hed]|]. apply eqc_or_assoc.
+Qed.
+
+Lemma claim_eqc_A ts s s' : eqc s s' -> claimA1 ts s /\ claimA2 ts s -> claimA1 ts s' /\ claimA2 ts s'.
+Proof.
+  intros E [H1 H2]. split.
+  - intros rest Hh. destruct (H1 rest Hh) as [c' [f [Hp He]]]. exists c', f. split; [exact Hp | eapply eqc_trans; eassumption].
+  - intros rest d rest' f2 Hd. destruct (H2 _ _ _ _ Hd) as [c' [f [Hp He]]]. exists c', f. split; [exact Hp|].
+    eapply eqc_trans; [exact He|]. apply eqc_and; [exact E | apply eqc_refl].
+Qed.
+Lemma claim_eqc_O ts s s' : eqc s s' -> claimO1 ts s /\ claimO2 ts s -> claimO1 ts s' /\ claimO2 ts s'.
+Proof.
+  intros E [H1 H2]. split.
+  - intros rest Hh. destruct (H1 rest Hh) as [c' [f [Hp He]]]. exists c', f. split; [exact Hp | eapply eqc_trans; eassumption].
+  - intros rest d rest' f2 Hd. destruct (H2 _ _ _ _ Hd) as [c' [f [Hp He]]]. exists c', f. split; [exact Hp|].
+    eapply eqc_trans; [exact He|]. apply eqc_or; [exact E | apply eqc_refl].
+Qed.
+
+(* a not-level text gives all four claims (its wrap is itself) *)
+Lemma claims_of_N c : is_or c = false -> claimN (print_cond c) (sem c) -> claims c.
+Proof.
+  intros Hno HN. unfold claims, wrap. rewrite Hno.
+  destruct (lift_N_A _ _ HN) as [A1 A2]. destruct (lift_A_O _ _ A1) as [O1 O2]. repeat split; assumption.
+Qed.
 
 Lemma main_lemma :
-  (forall c, guard_cond c = true -> claims c) /\ (forall l : sclist, True).
+  (forall c, g_nobool c = true -> claims c) /\ (forall l, g_nobool_l l = true -> claims_l l).
 Proof.
-  apply scond_sclist_mut; try (intros; exact I).
-  - (* SRel *)
-    intros o a b _.
-    assert (HN : claimN (SRel o a b)).
-    { intros rest. exists (CRel o a b), 1. split; [reflexivity | apply eqc_refl]. }
-    destruct (lift_N_A _ HN) as [HA1 HA2]. destruct (lift_A_O _ HA1) as [HO1 HO2].
-    repeat split; auto.
-  - (* STrue *) intros H. discriminate H.
-  - (* SFalse *) intros H. discriminate H.
+  apply scond_sclist_mut.
+  - (* SRel *) intros o a b _. apply claims_of_N; [reflexivity|].
+    intros rest. exists (CRel o a b), 1. split; [reflexivity | apply eqc_refl].
+  - intro H; discriminate H.
+  - intro H; discriminate H.
   - (* SAnd *)
-    intros a IHa b IHb more _ G.
-    unfold guard_cond in G. cbn [g_binary g_prec g_nobool] in G.
-    repeat (apply andb_prop in G; destruct G as [G ?]).
-    repeat match goal with H : _ && _ = true |- _ => apply andb_prop in H; destruct H end.
-    destruct more; [|discriminate].
-    assert (Ga : guard_cond a = true) by (unfold guard_cond; repeat (apply andb_true_intro; split); assumption).
-    assert (Gb : guard_cond b = true) by (unfold guard_cond; repeat (apply andb_true_intro; split); assumption).
-    destruct (IHa Ga) as [_ [HAa _]]. destruct (IHb Gb) as [_ [HAb _]].
-    assert (La : 1 <= lvl a) by (destruct a; cbn in *; try lia; discriminate).
-    assert (Lb : 1 <= lvl b) by (destruct b; cbn in *; try lia; discriminate).
-    destruct (HAa La) as [A1a A2a]. destruct (HAb Lb) as [A1b A2b].
-    assert (HA1 : claimA1 (SAnd a b SNil)).
-    { intros rest Hh. cbn [print_cond sem sem_and]. rewrite app_assoc3.
-      destruct (A1b rest Hh) as [cb [fb [Hpb Heb]]].
-      destruct (A2a _ _ _ _ Hpb) as [c' [f [Hp He]]].
-      exists c', f. split; [exact Hp|].
-      eapply eqc_trans; [exact He|]. apply eqc_and; [apply eqc_refl | exact Heb]. }
-    assert (HA2 : claimA2 (SAnd a b SNil)).
-    { intros rest d rest' f2 Hd. cbn [print_cond sem sem_and]. rewrite app_assoc3.
-      destruct (A2b _ _ _ _ Hd) as [cb [fb [Hpb Heb]]].
-      destruct (A2a _ _ _ _ Hpb) as [c' [f [Hp He]]].
-      exists c', f. split; [exact Hp|].
-      eapply eqc_trans; [exact He|].
-      eapply eqc_trans; [apply eqc_and; [apply eqc_refl | exact Heb]|]. apply eqc_and_assoc. }
-    destruct (lift_A_O _ HA1) as [HO1 HO2].
-    repeat split; auto. intro Hl; discriminate Hl.
+    intros a IHa b IHb more IHm G. cbn [g_nobool] in G.
+    apply andb_prop in G. destruct G as [G Gm]. apply andb_prop in G. destruct G as [Ga Gb].
+    destruct (IHa Ga) as [_ [_ [Wa1 Wa2]]]. pose proof (IHb Gb) as Cb. pose proof (IHm Gm) as Cm.
+    destruct (and_seq (SCons b more) (conj Cb Cm) _ _ Wa1 Wa2) as [T1 T2].
+    assert (E : eqc (rc_and (sem a) (SCons b more)) (sem (SAnd a b more))).
+    { cbn [rc_and sem]. apply eqc_sym. eapply eqc_trans; [apply sem_and_rc | apply rc_and_shift]. }
+    assert (Hpr : wrap a ++ print_and_more (SCons b more) = print_cond (SAnd a b more)) by reflexivity.
+    rewrite Hpr in T1, T2. destruct (claim_eqc_A _ _ _ E (conj T1 T2)) as [A1 A2].
+    destruct (lift_A_O _ _ A1) as [O1 O2].
+    unfold claims, wrap. cbn [is_or]. repeat split; assumption.
   - (* SOr *)
-    intros a IHa b IHb more _ G.
-    unfold guard_cond in G. cbn [g_binary g_prec g_nobool] in G.
-    repeat (apply andb_prop in G; destruct G as [G ?]).
-    repeat match goal with H : _ && _ = true |- _ => apply andb_prop in H; destruct H end.
-    destruct more; [|discriminate].
-    assert (Ga : guard_cond a = true) by (unfold guard_cond; repeat (apply andb_true_intro; split); assumption).
-    assert (Gb : guard_cond b = true) by (unfold guard_cond; repeat (apply andb_true_intro; split); assumption).
-    destruct (IHa Ga) as [_ [_ [O1a O2a]]]. destruct (IHb Gb) as [_ [_ [O1b O2b]]].
-    assert (HO1 : claimO1 (SOr a b SNil)).
-    { intros rest Hh. cbn [print_cond sem sem_or]. rewrite app_assoc3.
-      destruct (O1b rest Hh) as [cb [fb [Hpb Heb]]].
-      destruct (O2a _ _ _ _ Hpb) as [c' [f [Hp He]]].
-      exists c', f. split; [exact Hp|].
-      eapply eqc_trans; [exact He|]. apply eqc_or; [apply eqc_refl | exact Heb]. }
-    assert (HO2 : claimO2 (SOr a b SNil)).
-    { intros rest d rest' f2 Hd. cbn [print_cond sem sem_or]. rewrite app_assoc3.
-      destruct (O2b _ _ _ _ Hd) as [cb [fb [Hpb Heb]]].
-      destruct (O2a _ _ _ _ Hpb) as [c' [f [Hp He]]].
-      exists c', f. split; [exact Hp|].
-      eapply eqc_trans; [exact He|].
-      eapply eqc_trans; [apply eqc_or; [apply eqc_refl | exact Heb]|]. apply eqc_or_assoc. }
-    split; [intro Hl; discriminate Hl|]. split; [intro Hl; cbn [lvl] in Hl; lia|]. split; assumption.
+    intros a IHa b IHb more IHm G. cbn [g_nobool] in G.
+    apply andb_prop in G. destruct G as [G Gm]. apply andb_prop in G. destruct G as [Ga Gb].
+    destruct (IHa Ga) as [Oa1 [Oa2 _]]. pose proof (IHb Gb) as Cb. pose proof (IHm Gm) as Cm.
+    destruct (or_seq (SCons b more) (conj Cb Cm) _ _ Oa1 Oa2) as [T1 T2].
+    assert (E : eqc (rc_or (sem a) (SCons b more)) (sem (SOr a b more))).
+    { cbn [rc_or sem]. apply eqc_sym. eapply eqc_trans; [apply sem_or_rc | apply rc_or_shift]. }
+    assert (Hpr : print_cond a ++ print_or_more (SCons b more) = print_cond (SOr a b more)) by reflexivity.
+    rewrite Hpr in T1, T2. destruct (claim_eqc_O _ _ _ E (conj T1 T2)) as [O1 O2].
+    destruct (lift_N_A _ _ (paren_N _ _ O1)) as [W1 W2].
+    unfold claims, wrap. cbn [is_or]. repeat split; assumption.
   - (* SNot *)
-    intros a IHa G.
-    assert (Ga : guard_cond a = true).
-    { unfold guard_cond in *. cbn [g_binary g_prec g_nobool] in G. exact G. }
-    destruct (IHa Ga) as [_ [_ [O1a _]]].
-    assert (HN : claimN (SNot a)).
-    { intros rest. cbn [print_cond sem].
-      destruct (O1a (TRp :: rest)) as [c' [f [Hp He]]]; [reflexivity|].
-      exists (CNot c'), (S (S f)). split.
-      - change ((TNot :: TLp :: print_cond a ++ [TRp]) ++ rest)
-          with (TNot :: TLp :: ((print_cond a ++ [TRp]) ++ rest)).
-        rewrite <- app_assoc. cbn [app].
-        rewrite p_not_S, p_not_S, Hp. reflexivity.
-      - apply eqc_not. exact He. }
-    destruct (lift_N_A _ HN) as [HA1 HA2]. destruct (lift_A_O _ HA1) as [HO1 HO2].
-    repeat split; auto.
+    intros a IHa G. cbn [g_nobool] in G. destruct (IHa G) as [O1a _].
+    apply claims_of_N; [reflexivity|]. intros rest. cbn [print_cond sem].
+    destruct (paren_N _ _ O1a rest) as [c' [f [Hp He]]].
+    exists (CNot c'), (S f). split; [|apply eqc_not; exact He].
+    change ((TNot :: TLp :: print_cond a ++ [TRp]) ++ rest) with (TNot :: ((TLp :: print_cond a ++ [TRp]) ++ rest)).
+    rewrite p_not_S, Hp. reflexivity.
+  - (* SNil *) intros _. exact I.
+  - (* SCons *) intros c IHc tl IHt G. cbn [g_nobool_l] in G. apply andb_prop in G. destruct G as [Gc Gt].
+    split; [exact (IHc Gc) | exact (IHt Gt)].
 Qed.
 
 (* ---- the fixed fuel of parse_cond is enough ---- *)
@@ -294,7 +343,7 @@ Lemma cond_print_sound_lemma c :
   guard_cond c = true ->
   exists c', printed_cond c = Some c' /\ forall r fi, evalc r fi c' = evalc r fi (sem c).
 Proof.
-  intro G. destruct (proj1 main_lemma c G) as [_ [_ [HO1 _]]].
+  intro G. destruct (proj1 main_lemma c G) as [HO1 _].
   destruct (HO1 [] I) as [c' [f [Hp He]]]. rewrite app_nil_r in Hp.
   exists c'. split; [|exact He].
   unfold printed_cond, parse_cond.
